@@ -373,8 +373,12 @@ class iindex(dict):
             uncommon_ratio = (
                 sum(final_counts.values()) - final_counts.get(common, 0)
             ) / float(values.size)
-            # 100 was determined via benchmarks
-            use_where = (len(counts) / uncommon_ratio) < 100
+            # 100 was determined via benchmarks. When nothing is uncommon (say,
+            # a mapping sends every value to the common one) there are no
+            # entries to build, and numpy.where skips each value at once.
+            use_where = (
+                uncommon_ratio == 0 or (len(counts) / uncommon_ratio) < 100
+            )
 
         if use_where:
             entries = {}
